@@ -370,6 +370,31 @@ theorem next_is_drawn (ops : List WOp) : ∀ w : World, (w.run ops).ps.next = dr
     | render => rfl
     | refresh => rfl
 
+/-- Whatever is in the bookkeeping's lists was drawn: a property every drawn placement (and every placement already
+    in the lists) has, every placement of the lists has after any history. -/
+theorem lists_good (Good : Placement → Prop) (ops : List WOp) : ∀ w : World,
+    (∀ p ∈ w.ps.next, Good p) → (∀ p ∈ w.ps.last, Good p) → (∀ p, WOp.draw p ∈ ops → Good p) →
+    (∀ p ∈ (w.run ops).ps.next, Good p) ∧ (∀ p ∈ (w.run ops).ps.last, Good p) := by
+  induction ops with
+  | nil => intro w hn hl _; exact ⟨hn, hl⟩
+  | cons op rest ih =>
+    intro w hn hl hd
+    have hd' : ∀ p, WOp.draw p ∈ rest → Good p := fun p hp => hd p (List.mem_cons_of_mem _ hp)
+    show (∀ p ∈ ((w.step op).run rest).ps.next, Good p) ∧ (∀ p ∈ ((w.step op).run rest).ps.last, Good p)
+    rw [step_std]
+    cases op with
+    | resize id ok => cases ok <;> exact ih _ hn hl hd'
+    | draw p =>
+      refine ih _ ?_ hl hd'
+      intro q hq
+      rcases List.mem_append.mp hq with h | h
+      · exact hn q h
+      · have : q = p := by simpa using h
+        rw [this]; exact hd p (List.mem_cons_self ..)
+    | clear => exact ih _ (fun q hq => by cases hq) hl hd'
+    | render => rw [World.stepWith, render_cmds]; exact ih _ hn hn hd'
+    | refresh => rw [World.stepWith, render_cmds]; exact ih _ hn hn hd'
+
 /-- The terminal a history leaves is the fold of the commands it emitted, in order. -/
 theorem trace_run (ops : List WOp) : ∀ w : World, (w.run ops).term = w.term.run (World.trace w ops) := by
   induction ops with
